@@ -83,27 +83,24 @@ def handle (line : String) : String :=
     let (d, arg) := splitBar rest
     match unhexChars params, parseTy d with
     | some params, some (g, []) =>
-      match resolveTop g params with
-      | .error _ => "err"
-      | .ok t =>
-        if op = "enc" then
-          match parseVal arg with
-          | some (v, []) =>
-            match enc t v with
-            | .ok bs => "ok " ++ hexOrDash bs
+      if op = "enc" then
+        match parseVal arg with
+        | some (v, []) =>
+          match marshalWithParams g params v with
+          | .ok bs => "ok " ++ hexOrDash bs
+          | .error _ => "err"
+        | _ => "bad-op"
+      else if op = "dec" then
+        match arg with
+        | [h] =>
+          match fromHex h with
+          | some bs =>
+            match unmarshalWithParams g params bs with
+            | .ok (v, rest) => "ok " ++ showVal v ++ " " ++ hexOrDash rest
             | .error _ => "err"
-          | _ => "bad-op"
-        else if op = "dec" then
-          match arg with
-          | [h] =>
-            match fromHex h with
-            | some bs =>
-              match dec t bs with
-              | .ok (v, rest) => "ok " ++ showVal v ++ " " ++ hexOrDash rest
-              | .error _ => "err"
-            | none => "bad-op"
-          | _ => "bad-op"
-        else "bad-op"
+          | none => "bad-op"
+        | _ => "bad-op"
+      else "bad-op"
     | _, _ => "bad-op"
   | _ => "bad-op"
 
